@@ -80,7 +80,7 @@ def length_gates(chk, rule='record-length-gate'):
         Ob(src, 'ccm_check_length', Var('rlen', 'param'), ('assume', 'ult', Var('over', 'last')), RET(0), ('assume', 'eq', Var('over', 'last')),
            'record shorter than the overhead', rule=rule),
     ])
-    # CBC: at least one full block holding MAC + padding-length byte, multiple of the block size is enforced by the cipher run;
+    # CBC: at least one full block holding MAC + padding-length byte;
     # decided here: rlen below mac_len+1 is refused (else max_len = len - 1 underflows / MAC does not fit)
     src = 'src/ssl/ssl_rec_cbc.c'
     oblig.run_obligations(chk, [
@@ -88,6 +88,14 @@ def length_gates(chk, rule='record-length-gate'):
            'record shorter than MAC + padding', rule=rule),
         Ob(src, 'cbc_check_length', Var('rlen', 'param'), ('assume', 'ugt', Var('max_len', 'last')), RET(0), ('assume', 'eq', Var('min_len', 'last')),
            'record longer than 2^14 + 256 + MAC', rule=rule),
+        # a CBC record is a whole number of cipher blocks; the block-cipher run() methods loop `len -= block` and never terminate
+        # (running over the buffer) on any other length, before any MAC check
+        Ob(src, 'cbc_check_length', Var('rlen', 'param'), ('assume', 'ne', 0, 15), RET(0), ('assume', 'eq', 0, 15),
+           'record length is not a multiple of the 16-byte block: the CBC decryption loop of the block cipher would run past the record',
+           rule=rule, extra_hyps=[(Var('blen', 'last'), ('assume', 'eq', 16))]),
+        Ob(src, 'cbc_check_length', Var('rlen', 'param'), ('assume', 'ne', 0, 7), RET(0), ('assume', 'eq', 0, 7),
+           'record length is not a multiple of the 8-byte block (3DES): the CBC decryption loop of the block cipher would run past the record',
+           rule=rule, extra_hyps=[(Var('blen', 'last'), ('assume', 'eq', 8))]),
     ])
 
 
